@@ -1,7 +1,7 @@
 #!/usr/bin/env python3
 # insert the chunk given on stdin before the final "End View." of M/RaftProofsC10Star.v
 import sys
-p='/work/c10b/coq/M/RaftProofsC10Star.v'
+p='/work/c10c/coq/M/RaftProofsC10Star.v'
 s=open(p).read().rstrip()
 assert s.endswith("End View.")
 s=s[:-len("End View.")].rstrip()+"\n"+sys.stdin.read().rstrip()+"\n\nEnd View.\n"
